@@ -218,3 +218,15 @@ Proof.
   - destruct (plan q3 MSearch c0all 1) as [s| |] eqn:E; [|vm_compute in E; discriminate|vm_compute in E; discriminate].
     exists s. split; [reflexivity|]. vm_compute in E. injection E as <-. vm_compute. reflexivity.
 Qed.
+
+(* ... and what traceql_correct_single_any_spans says of that witness: the answer with 100 of the 101 matched spans passes result_ok_cap 100
+   (t1 is the right trace, the 100 ids are distinct matched spans of it) *)
+Example span_list_cut_is_capped :
+  exists s res, plan (q1 e3 AONone) MSearch c0 1 = Ok s /\ index_rows c0 d101 s = Some res
+                /\ result_ok_cap 100 c0 (traceql_sem re_toy float_toy false c0 d101 (q1 e3 AONone)) res = true.
+Proof.
+  destruct (plan (q1 e3 AONone) MSearch c0 1) as [s| |] eqn:E; [|vm_compute in E; discriminate|vm_compute in E; discriminate].
+  exists s. vm_compute in E. injection E as <-.
+  destruct (index_rows c0 d101 _) as [res|] eqn:Er; [|vm_compute in Er; discriminate].
+  exists res. split; [reflexivity|]. split; [reflexivity|]. vm_compute in Er. injection Er as <-. vm_compute. reflexivity.
+Qed.
